@@ -995,7 +995,7 @@ class Ctx:
         if isinstance(v, Ref) and ops._array_cell(self, v) is not None and isinstance(e.op, (ast.USub, ast.UAdd)):
             # element-wise on an array: a new array
             items = [ops.unary(e.op, x) if isinstance(x, Sym) else (-x if isinstance(e.op, ast.USub) else +x) for x in ops._array_cell(self, v).items]
-            return ops.make_array(self, items)
+            return ops.make_array(self, items, npdtype=getattr(ops._array_cell(self, v), "npdtype", None))
         if isinstance(e.op, ast.USub):
             return -v
         if isinstance(e.op, ast.UAdd):
